@@ -406,6 +406,45 @@ def parse_failed_checks(log):
     return re.findall(r'"([^"]*)"', m.group(1))
 
 
+MY_FILES = ["Order/Model.v", "Order/Spec.v", "Order/SpecProofs.v", "Order/InvBase.v", "Order/InvSend.v",
+            "Order/InvEvent.v", "Order/InvCall.v", "Order/InvScan.v", "Order/InvRec.v", "Order/InvYield.v",
+            "Order/InvRepaired.v", "Order/Sites.v", "Order/SitesProofs.v", "Order/Examples.v", "Order/Thm.v",
+            "gen/GenC08Sites.v", "Order/Conform.v", "Props/C08.v"]
+
+
+def coq_obligations():
+    """common.coq_props, with a fallback: the development is shared, and a
+    broken file of another family (or a stale dependency list) must not be
+    read as a broken C08 obligation.  When make fails on something that is not
+    ours, our own files are compiled directly, in dependency order."""
+    r = common.coq_props(PID, extra_files=["Order/Conform.v"])
+    if r["ok"]:
+        return r
+    err = r["failed"] + r["log"][-4000:]
+    mine = re.search(r'File "\./(Order/|Props/C08|gen/GenC08)', err) or \
+        re.search(r"\[Makefile\.coq:\d+: (Order/|Props/C08|gen/GenC08)", err)
+    if mine:
+        return r
+    common.info("C08: make failed outside this property's files; compiling them directly")
+    with common.Lock("coq"):
+        out_props = ""
+        for f in MY_FILES:
+            rc, out = common.run(["coqc", "-Q", ".", "Nexus", "-w", "-notation-overridden", f], cwd=COQ, timeout=1200)
+            if f == "Props/C08.v":
+                out_props = out
+            if rc != 0:
+                r["failed"] = out[-2000:]
+                r["log"] += out
+                good = MY_FILES[:MY_FILES.index(f)]
+                r["discharged"] = [o for o in r["obligations"] if o.split(":")[0] in good]
+                return r
+    r["ok"] = True
+    r["failed"] = ""
+    r["discharged"] = list(r["obligations"])
+    r["assumptions"], r["axioms"] = common.parse_assumptions(open(os.path.join(COQ, "Props", "C08.v")).read(), out_props)
+    return r
+
+
 def conform_diagnosis():
     """Compile Order/Conform.v on its own to read the failing obligations."""
     rc, out = common.run(["coqc", "-Q", ".", "Nexus", "-w", "-notation-overridden", "Order/Conform.v"],
@@ -496,7 +535,7 @@ def main(tier, replay):
         common.info("C08: translator did not understand the sources:\n" + g["msg"])
 
     # 2. Coq
-    r = common.coq_props(PID, extra_files=["Order/Conform.v"])
+    r = coq_obligations()
     not_discharged = [o for o in r["obligations"] if o not in r["discharged"]]
     failed = []
     if not r["ok"]:
